@@ -13,6 +13,10 @@ mod infra;
 mod qcompile;
 mod render;
 mod sim;
+mod c09;
+mod c10;
+mod c13;
+mod c17;
 // REGISTRY (modules): one `mod cNN;` line per Engine-B/C check
 mod c19;
 mod c16;
@@ -47,6 +51,10 @@ fn run_check(id: &str, tier: Tier) -> Result<infra::Report, String> {
         "C20" => c20::run(tier),
         "C16" => c16::run(tier),
         "C19" => c19::run(tier),
+        "C09" => c09::run(tier),
+        "C10" => c10::run(tier),
+        "C13" => c13::run(tier),
+        "C17" => c17::run(tier),
         // REGISTRY (run): "CNN" => cNN::run(tier),
         _ => Err(format!("no check registered for {}", id)),
     }
@@ -73,6 +81,10 @@ fn run_replay(id: &str, path: &std::path::Path) -> i32 {
             "C20" => c20::replay(replay),
             "C16" => c16::replay(replay),
             "C19" => c19::replay(replay),
+            "C09" => c09::replay(replay),
+            "C10" => c10::replay(replay),
+            "C13" => c13::replay(replay),
+            "C17" => c17::replay(replay),
             // REGISTRY (replay): "CNN" => cNN::replay(replay),
             _ => Err(format!("no replay handler for {}", id)),
         },
